@@ -62,10 +62,12 @@ def step (st : St) (n : Nat) (ln : Line) : St × List String :=
     let model := match parseRange h size with
       | none => ["err"]
       | some rs => ["ok", toString (sumRangesSize rs)] ++ rs.map fun r => s!"{r.start}:{r.length}"
+    let skipped := match parseRangeD h size with
+      | some (_, no) => no
+      | none => false
     let cov := match parseRange h size with
-      | none => "COV parse.err"
-      | some rs => if rs.any (fun r => decide (r.length < 0)) then "COV parse.negative-length"
-                   else if rs.any (fun r => decide (r.length = 0)) then "COV parse.zero-length"
+      | none => if skipped then "COV parse.no-overlap" else "COV parse.err"
+      | some rs => if skipped then "COV parse.skipped"
                    else if rs.length > 1 then "COV parse.multi" else "COV parse.ok"
     (st, diff n ln model ++ [cov])
   | "reset" => ({}, [])
@@ -94,12 +96,19 @@ def step (st : St) (n : Nat) (ln : Line) : St × List String :=
     let igz := o.getD 2 "-" == hexOfStr "gzip"
     let iR := if igz then st.blob.stored else st.blob.plain
     let j1 := match implResponse o with
+      | some .unsat =>
+        -- a 416 announces no Content-Encoding, so the representation the server ranged over is not observable: the 416 has to
+        -- be right for the decompressed bytes or — only for a client that accepts gzip — for the stored gzip bytes
+        let jp := rangeJudge h st.blob.plain .unsat
+        let js := if st.blob.compressed && clientAcceptsGzip ae then rangeJudge h st.blob.stored .unsat else jp
+        judgeOut n (if jp.isNone then none else js) s!"range={a.getD 1 "-"} size={st.blob.plain.length} stored={st.blob.stored.length}"
       | some r => judgeOut n (rangeJudge h iR r) s!"range={a.getD 1 "-"} size={iR.length}"
       | none => if o.getD 0 "" == "200" ∨ o.getD 0 "" == "206" ∨ o.getD 0 "" == "416" then [specfail n "get/unreadable-answer" (toString o)] else []
     let j2 := if o.getD 0 "" == "200" ∨ o.getD 0 "" == "206" then judgeOut n (encodingJudge ae igz) s!"accept-encoding={a.getD 0 "-"}" else []
     let j3 := if o.getD 0 "" == "200" ∨ o.getD 0 "" == "206" then judgeOut n (framingJudge (o.getD 1 "-")) s!"range={a.getD 1 "-"} size={iR.length}" else []
     (st, diff n ln model ++ j1 ++ j2 ++ j3 ++ [cov] ++ (if gz then ["COV get.gzip-encoded"] else []) ++
-      (if st.blob.compressed && !gz then ["COV get.decompressed-for-client"] else []))
+      (if st.blob.compressed && !gz then ["COV get.decompressed-for-client"] else []) ++
+      (if st.blob.compressed && isGzMagic st.blob.stored && containsSub gzipWord ae && !gz then ["COV get.gzip-refused"] else []))
   | _ => (st, [s!"DIFF {n} unknown-op {ln.op}"])
 
 def main : IO Unit := run { init := ({} : St), step := step }
